@@ -611,6 +611,10 @@ func (t *streamableHTTPClientTransport) sendNotification(ctx context.Context, no
 			t.logger.Warnf("Unexpected response status when sending response: %d, body: %s",
 				httpResp.StatusCode, string(bodyBytes))
 		}
+		// A refusal is a failure: callers such as Initialize (notifications/initialized) rely on it.
+		if httpResp.StatusCode < 200 || httpResp.StatusCode >= 300 {
+			return fmt.Errorf("%w: status code %d", ErrHTTPRequestFailed, httpResp.StatusCode)
+		}
 	}
 
 	return nil
